@@ -256,12 +256,23 @@ class ProcessMonitor:
         self.active_processes: dict[str, psutil.Process] = {}
 
     def _consume_monitor_queue(self):
-        while True:
-            try:
-                event = self.process_event_queue.get_nowait()
-            except Empty:
-                break
+        events: list[ProcessEvent] = []
 
+        def _consume():
+            while True:
+                try:
+                    events.append(self.process_event_queue.get_nowait())
+                except Empty:
+                    break
+
+        # Consume the queue in a thread so that a KeyboardInterrupt
+        # cannot interrupt the communication with the queue's manager
+        # part-way through a message.
+        consumer_thread = Thread(target=_consume)
+        consumer_thread.start()
+        consumer_thread.join()
+
+        for event in events:
             if isinstance(event, ProcessStartEvent):
                 self.active_process_events[event.task_name] = event
             elif isinstance(event, ProcessEndEvent):
